@@ -2,9 +2,11 @@ package scen
 
 import (
 	"context"
+	"errors"
 	"fmt"
 	"io"
 	"sort"
+	"time"
 
 	protocol "github.com/hujm2023/go-sms-protocol"
 	"github.com/hujm2023/go-sms-protocol/cmpp"
@@ -104,7 +106,36 @@ func installPermute(r *core.Run) func() {
 
 func runBatch(r *core.Run) {
 	c := r.C
-	ctx := context.Background()
+	// the caller's context is part of the deployment, not of the request: a live one, one that was cancelled before
+	// the call, one whose deadline has passed, one whose deadline passes while the workers run (the scheduler moves
+	// the simulated clock), one that carries values. A function of the run index. The reference calls use bg.
+	bg := context.Background()
+	ctx := bg
+	ctxKind := "live"
+	expireAtStep := -1
+	switch r.Cfg.Index % 16 {
+	case 3:
+		cc, cancel := context.WithCancel(bg)
+		cancel()
+		ctx, ctxKind = cc, "cancelled"
+	case 7:
+		cc, cancel := context.WithDeadline(bg, time.Now().Add(-time.Hour))
+		defer cancel()
+		ctx, ctxKind = cc, "deadline-passed"
+	case 11:
+		cc, cancel := context.WithTimeout(bg, time.Millisecond)
+		defer cancel()
+		ctx, ctxKind = cc, "deadline-passes-meanwhile"
+		expireAtStep = 1 + int(r.Cfg.Index/16)%24
+	case 15:
+		type key struct{}
+		ctx, ctxKind = context.WithValue(bg, key{}, "tenant-7"), "values"
+	}
+	if ctxKind != "live" {
+		r.Probe("context_" + ctxKind)
+		r.Event("context %s", ctxKind)
+	}
+	ctxRefused := false
 	isSMPP := c.Bool()
 	valid := []int{0, 8, 9, 15}
 	invalid := []int{1, 3, 4, 25, 99, 255, 256, 264, 265, 271, -248, -241, 1<<32 + 8, 1<<32 + 15}
@@ -215,11 +246,11 @@ func runBatch(r *core.Run) {
 		var actual int
 		if isSMPP {
 			var a datacoding.SMPPDataCoding
-			parts, a, err = protocol.EncodeSMPPContentAndSplit(ctx, text, datacoding.SMPPDataCoding(n), ref)
+			parts, a, err = protocol.EncodeSMPPContentAndSplit(bg, text, datacoding.SMPPDataCoding(n), ref)
 			actual = int(a)
 		} else {
 			var a datacoding.CMPPDataCoding
-			parts, a, err = protocol.EncodeCMPPContentAndSplit(ctx, text, datacoding.CMPPDataCoding(n), ref)
+			parts, a, err = protocol.EncodeCMPPContentAndSplit(bg, text, datacoding.CMPPDataCoding(n), ref)
 			actual = int(a)
 		}
 		if err != nil || actual != n {
@@ -319,6 +350,11 @@ func runBatch(r *core.Run) {
 				panicked = true
 				return
 			}
+			if err != nil && ctx.Err() != nil && errors.Is(err, ctx.Err()) {
+				// an implementation may refuse to work for a caller that has gone away; it may not return a wrong answer
+				ctxRefused = true
+				r.Event("build %d refused: the context is done", k)
+			}
 			res := batchResult{err: err != nil}
 			if err == nil {
 				for _, p := range parts {
@@ -349,11 +385,23 @@ func runBatch(r *core.Run) {
 			_ = cmpp.Utf8ToUcs2Pooled("锤子 hammer")
 		}
 	})
+	if r.Cfg.Index%8 == 1 {
+		// a collection at a point of the history that is a function of the run index
+		s.GCAtStep = int(r.Cfg.Index / 8 * 37 % 300)
+	}
+	if expireAtStep >= 0 {
+		s.StepHook = func(step int) {
+			if step == expireAtStep {
+				s.Advance(2 * time.Millisecond)
+				r.Fault("deadline_passed_meanwhile")
+			}
+		}
+	}
 	if msg := s.Run(4000000, nil); msg != "" {
 		r.Fail("C09", "liveness", "BatchDataCodingEncoder.Build", "stuck", "%s", msg)
 		return
 	}
-	if panicked {
+	if panicked || ctxRefused {
 		return
 	}
 	if s.Switches() > 0 {
@@ -392,9 +440,9 @@ func runBatch(r *core.Run) {
 		var fp [][]byte
 		var ferr error
 		if isSMPP {
-			fp, _, ferr = protocol.EncodeSMPPContentAndSplit(ctx, text, datacoding.SMPP_CODING_UCS2, ref)
+			fp, _, ferr = protocol.EncodeSMPPContentAndSplit(bg, text, datacoding.SMPP_CODING_UCS2, ref)
 		} else {
-			fp, _, ferr = protocol.EncodeCMPPContentAndSplit(ctx, text, datacoding.CMPP_CODING_UCS2, ref)
+			fp, _, ferr = protocol.EncodeCMPPContentAndSplit(bg, text, datacoding.CMPP_CODING_UCS2, ref)
 		}
 		r.Probe("no_candidate_usable")
 		if ferr != nil || ucs2Tried {
